@@ -239,9 +239,11 @@ func CSVProducer(opts ...CSVOpt) Producer {
 				return err
 			})
 
-			pipe.Go(func() error {
+			pipe.Go(func() (err error) {
 				defer func() {
-					_ = r.Close()
+					// hand the reading side's error (e.g. a parse error) over to the writing side, so that
+					// whichever side reports first, the caller gets that error and not a closed-pipe error
+					_ = r.CloseWithError(err)
 				}()
 
 				return pipeCSV(csvWriter, csvReader, o)
